@@ -59,6 +59,7 @@ const (
 	KMaxVals       = "max_validators"
 	KUnbondingTime = "unbonding_time"
 	KSettle        = "settle" // ClaimValidatorRewards for one validator (what any user tx on it triggers)
+	KReimport      = "reimport" // export the alliance genesis, wipe the alliance store, import it again (chain restart from an export)
 )
 
 func (o Op) String() string {
@@ -226,6 +227,25 @@ func (w *World) Exec(ctx sdk.Context, op Op) Result {
 			_, err := ms.ClaimDelegationRewards(c, types.NewMsgClaimDelegationRewards(w.delAddr(op.D).String(), w.Vals[op.V].String(), op.Denom))
 			return err
 		})
+	case KReimport:
+		err, p := callRecover(func() error {
+			gs := k.ExportGenesis(c)
+			st := c.KVStore(w.App.GetKey("alliance"))
+			var keys [][]byte
+			it := st.Iterator(nil, nil)
+			for ; it.Valid(); it.Next() {
+				keys = append(keys, append([]byte{}, it.Key()...))
+			}
+			it.Close()
+			for _, key := range keys {
+				st.Delete(key)
+			}
+			k.InitGenesis(c, gs)
+			return nil
+		})
+		res.Err, res.Panicked = err, p
+		res.Ctx = c
+		return res
 	case KSettle:
 		return tx(func() error {
 			val, err := k.GetAllianceValidator(c, w.Vals[op.V])
